@@ -24,7 +24,7 @@ RULE = ('cells = (order 1|2, biort family incl. band-pass, q-shift, magbias in {
 ASSUMPTIONS = ['float64', 'torch native autograd trusted for plain torch code', 'finite differences: h = 1e-4*min(scale, bias)']
 TIMEOUT = {'quick': 900, 'thorough': 3300}
 WORKER_BUDGET = {'quick': 600, 'thorough': 2700}
-MIN_HELD = {'quick': 200, 'thorough': 1000}
+MIN_HELD = {'quick': 200, 'thorough': 67753}
 SIDES = [4, 5, 7, 8, 9, 10, 12, 13, 16, 20, 24]
 
 
